@@ -733,6 +733,26 @@ pub mod simd {
                     Err(e) => if well { return Some(format!("{case}: well-shaped call panicked: {}", panic_msg(e))); },
                 }
             }
+            // (c) C08: with exactly the advertised scratch, the result is bit-for-bit independent of the initial contents of the scratch and
+            // of the output buffer (NaN / infinity taint: any use of a stale value makes the output differ)
+            if n > 0 {
+                for k in [1usize, 2] {
+                    let run = |fill: T| -> Vec<Complex<T>> {
+                        let mut a: Vec<Complex<T>> = (0..k * n).map(gen).collect();
+                        let mut b = vec![Complex::new(fill, fill); k * n];
+                        let mut c = vec![Complex::new(fill, fill); adv];
+                        match entry { 0 => f.process_with_scratch(&mut a, &mut c), 1 => f.process_outofplace_with_scratch(&mut a, &mut b, &mut c), _ => f.process_immutable_with_scratch(&a, &mut b, &mut c) }
+                        if entry == 0 { a } else { b }
+                    };
+                    let clean = run(T::zero());
+                    for (fname, fill) in [("NaN", T::nan()), ("+inf", T::infinity())] {
+                        let dirty = run(fill);
+                        if clean.iter().zip(dirty.iter()).any(|(x, y)| bits(x.re) != bits(y.re) || bits(x.im) != bits(y.im)) {
+                            return Some(format!("{desc}.{name}: {k} chunk(s), scratch of exactly the advertised length {adv}: the output differs bit-for-bit when scratch and output start as {fname} instead of zero (a stale value is used)"));
+                        }
+                    }
+                }
+            }
         }
         None
     }
